@@ -508,6 +508,7 @@ PROPS = {
     },
     "C18": {
         "module": "ZenonVerif.Props.C18",
+        "extra_modules": ["ZenonVerif.Props.C18Rpc"],
         "streams": [S("paging", 30000, 2000000), S("rpc", 6, 300, timeout=7200), S("rpcserver", 1000, 60000, timeout=7200)],
         "rule": "paging stream: (index,count,len) over the full uint32 range with boundary bias + complete page sweeps of "
                 "random lists; rpc stream: the real LedgerApi called in-process on generated chains (momentums/account blocks by page "
@@ -534,8 +535,28 @@ PROPS = {
                 "response object per message that is not a notification / response, ids echoed in order, nothing for notifications, no HTTP "
                 "error status for a JSON request below the size limit, no dropped connection for well-formed JSON; on stream transports a "
                 "sentinel call follows every request on the same connection and must be answered with the frontier; the child process must "
-                "survive (the request being served when it dies is reported); distinct = distinct lines",
-        "partial": "the robustness of the JSON-RPC server is runtime behaviour (monitors, no model); of the embedded getters the paged "
+                "survive (the request being served when it dies is reported); every well-formed JSON request of the directed corpus is "
+                "also printed, per transport, as `rpc-req <transport> <json tokens> | <shape of the answer>` (json: null / booleans / number "
+                "literals / hex of the decoded strings / arrays / objects with their members in order and with repetitions; shape read off "
+                "the reply text alone: none / single / batch k, per reply object the id token and the class e-32700 / e-32600 / e-32601 "
+                "or app = result or any other error code) and recomputed by the Lean dispatch model Model/JsonRpc.lean `respond` "
+                "(decoding of a jsonrpcMessage as encoding/json does it - null to nil pointer, non-objects to the zero message, "
+                "case-insensitive and repeated members, RawMessage / string / *jsonError fields - readBatch's nil repair, "
+                "handleBatch / handleMsg / handleImmediate / handleCallMsg / handleCall / handleSubscribe, registry lookup at the last "
+                "separator, argument count) with the registry reflected from the served services (Gen/RpcServer.lean: rpc.GetApis ledger + "
+                "embedded + the server's rpc service, 73 callbacks with per-parameter pointer-ness); the corpus holds, besides the "
+                "hostility above, the member-name / repeated-member / wrong-kind-member / id-kind / method-name families the model "
+                "distinguishes and calls of every registered method (and near misses of its name) with random argument counts, "
+                "kinds and ids; the AST of readBatch / parseMessage / isBatch / handleBatch / the classification predicates / the "
+                "switches of handleImmediate and handleCallMsg / handleCall / handleSubscribe / serveSingleRequest / validateRequest and "
+                "the error codes are regenerated and pinned by theorems of Props/C18Rpc.lean; distinct = distinct lines",
+        "partial": "of the JSON-RPC server the DISPATCH (one syntactically valid JSON value to the shape of the answer: how many "
+                   "reply objects, their ids and order, protocol error codes, and that none of the three panic sites - nil message, "
+                   "reqs[0], Method[0:-1] - is reachable) is modelled and proved (C18Rpc.lean) and compared per request; what a registered "
+                   "method answers once it is entered with an acceptable number of arguments (result, -32602 from the typed decoding "
+                   "of an argument, the method's own error) is class `app` in model and observation alike; malformed text, size / "
+                   "content-type refusals, timeouts, the transports themselves and process survival stay runtime behaviour (monitors, no "
+                   "model); no subscription service is registered on the harness's server; of the embedded getters the paged "
                    "ones are covered generically (reflection) for totals / order / exactly-once / bounds and compared with the Lean "
                    "getRange per page, the content of the elements is compared with the stores only for the ledger API; collections larger "
                    "than the page limit are reached for accelerator projects only (known finding F23: AcceleratorApi.GetAll is unbounded); "
